@@ -155,6 +155,22 @@ def check_case(core, v, level, root_kind, seg, chain, spellings, rec, group_path
             else:
                 rec.count('bad_terminal_write_accepted')
                 return
+        # ... nor does a value of a kind the library cannot take (bytes, a number, None, a list) assigned through `.value` at
+        # the end of the chain
+        for wrong in (b'bytes', 12345, None, ['a']):
+            cur = root
+            for nm in names:
+                cur = getattr(cur, nm)
+            try:
+                cur.value = wrong
+                rec.count('wrong_type_value_accepted')
+                return
+            except Exception:
+                rec.count('refused_wrong_type_values')
+                if state(root) != before:
+                    rec.violation('refused-write-materialised-the-chain', dict(case, value=repr(wrong)),
+                                  {'after': root.to_er7()[-120:]})
+                    return
         # terminal write
         ids_before = {id(e) for e in treeinv.walk(root)}
         text, sub = leaf_witness(v, chain[-1][2])
